@@ -346,7 +346,7 @@ def crasher(rng):
 
 
 def gen(rng, tier, n):
-    maxops = 40 if tier in ("quick", "search") else 400
+    maxops = 40 if tier in ("quick", "search") else 150
     streams = ["plain"] * 3 + ["reentrant"] * 4 + ["destroy"] * 2 + ["sockfail"] * 3 + ["tcp"] * 2 + ["longname"] + ["reentrant-ss"]
     out = []
     for i in range(n):
